@@ -22,6 +22,7 @@ type fieldAccess struct {
 	fa      *ssa.FieldAddr
 	field   string
 	locked  bool
+	assoc   bool // the accessing function (or the function it is a closure of) locks this struct's mutex somewhere
 	write   bool // store to the field itself
 	mutates bool // mutates what the field refers to
 	constr  bool // on a freshly allocated struct (construction)
@@ -69,6 +70,7 @@ func (c *Ctx) collectAccesses(target *types.Named, mutex string) []fieldAccess {
 				if !acc.locked && c.insideJoinedSection(fn, lockPath) {
 					acc.locked = true
 				}
+				acc.assoc = acc.locked || c.locksMutexOf(fn, target, mutex)
 				// classify uses
 				if refs := fa.Referrers(); refs != nil {
 					for _, r := range *refs {
@@ -251,6 +253,20 @@ func (c *Ctx) ruleLockset(rule string, targets map[*types.Named]string) {
 	for _, target := range names {
 		mutex := targets[target]
 		accs := c.collectAccesses(target, mutex)
+		// role-required guarded fields (independent of where locks are taken today): shared cbor encoders, and the
+		// client's pending table, signal-channel table and running flag
+		required := map[string]bool{}
+		if st, ok := target.Underlying().(*types.Struct); ok {
+			for i := 0; i < st.NumFields(); i++ {
+				if isNamed(st.Field(i).Type(), "cbor/v2", "Encoder") {
+					required[st.Field(i).Name()] = true
+				}
+			}
+		}
+		if ro := c.roles(); ro.ok && ro.clientT != nil && ro.clientT.Obj() == target.Obj() {
+			required[ro.pending], required[ro.sigTable], required[ro.runFlag] = true, true, true
+			delete(required, "")
+		}
 		type info struct{ underLock, mutable bool }
 		fields := map[string]*info{}
 		for _, a := range accs {
@@ -260,7 +276,7 @@ func (c *Ctx) ruleLockset(rule string, targets map[*types.Named]string) {
 			if a.constr {
 				continue
 			}
-			if a.locked {
+			if a.locked || required[a.field] {
 				fields[a.field].underLock = true
 			}
 			if a.write || a.mutates {
@@ -276,6 +292,10 @@ func (c *Ctx) ruleLockset(rule string, targets map[*types.Named]string) {
 		sort.Strings(guarded)
 		tname := target.Obj().Pkg().Name() + "." + target.Obj().Name()
 		c.R.Note("%s: %s.%s guards {%s}", rule, tname, mutex, strings.Join(guarded, ", "))
+		if len(guarded) == 0 {
+			c.R.Bad(rule, key(rule, tname+"."+mutex, "guards nothing"), "-", "mutex "+tname+"."+mutex+" guards no field",
+				"no mutable field of the struct is accessed while this mutex is held: the accesses it used to serialise are unprotected")
+		}
 		isGuarded := map[string]bool{}
 		for _, g := range guarded {
 			isGuarded[g] = true
@@ -394,6 +414,26 @@ func reachesGoFn(c *Ctx, fn *ssa.Function) bool {
 	for f := range c.M.Reachable([]*ssa.Function{fn}, nil) {
 		if hasGo(f) {
 			return true
+		}
+	}
+	return false
+}
+
+// locksMutexOf: fn, or a function it is lexically nested in, contains a Lock call on the mutex field of target.
+func (c *Ctx) locksMutexOf(fn *ssa.Function, target *types.Named, mutex string) bool {
+	for f := fn; f != nil; f = f.Parent() {
+		for _, b := range f.Blocks {
+			for _, in := range b.Instrs {
+				call, ok := in.(*ssa.Call)
+				if !ok || mutexOp(&call.Call) != "lock" {
+					continue
+				}
+				if fa, ok := call.Call.Args[0].(*ssa.FieldAddr); ok {
+					if sn := structOf(fa.X.Type()); sn != nil && sn.Obj() == target.Obj() && fieldName(fa.X.Type(), fa.Field) == mutex {
+						return true
+					}
+				}
+			}
 		}
 	}
 	return false
